@@ -37,6 +37,8 @@ def element_names(rng, n):
         ["Ra", "Is", "L", "Vs", "Iq", "Uq", "C", "Z1", "Y2", "G", "Rb", "Rc"],
         ["x10", "x9", "x2", "x1", "x11", "x3", "x20", "x4", "x5", "x6", "x7", "x8"],
         ["Rμ", "RΩ", "Vä", "I1", "I2", "V1", "V2", "Z", "Y", "S", "O", "P"],
+        # names that are different strings but collide after case folding / Unicode normalisation / stripping
+        ["R1", "r1", "R\u2081", "R\u03a9", "R\u2126", "Iq", "iq", "IQ", "\uff32\uff11", "Vs", "vs", "VS"],
     ])
     names = list(base)
     rng.shuffle(names)
